@@ -34,6 +34,7 @@ type World struct {
 	SortDs  []*spec.SortDecl
 	Globals map[string][]*spec.Global // package path -> global invariants
 	FuncGlobals map[*ssa.Global]*ssa.Function // package-level func variables bound once to a function
+	Ghosts map[string]*spec.Ghost
 	RangeNeedsInjective map[*ssa.Range]bool // criterion A' of C08: the ranged map must be injective
 	PkgByPath map[string]*packages.Package
 	GlobalDecls []string
@@ -113,7 +114,7 @@ func Load(dir string, assumedDir string) (*World, error) {
 	w := &World{Dir: dir, Fset: fset, Pkgs: pkgs, Prog: prog, Sorts: NewSorts(),
 		Funcs: map[string]*ssa.Function{}, Specs: map[string]*spec.FuncSpec{}, SpecFns: map[string]*spec.SpecFunc{},
 		PkgByPath: map[string]*packages.Package{}, Regexes: map[*ssa.Global]string{}, specFnDeclared: map[string]bool{},
-		Globals: map[string][]*spec.Global{}, FuncGlobals: map[*ssa.Global]*ssa.Function{}, RangeNeedsInjective: map[*ssa.Range]bool{}}
+		Globals: map[string][]*spec.Global{}, FuncGlobals: map[*ssa.Global]*ssa.Function{}, RangeNeedsInjective: map[*ssa.Range]bool{}, Ghosts: map[string]*spec.Ghost{}}
 	packages.Visit(pkgs, nil, func(p *packages.Package) { w.PkgByPath[p.PkgPath] = p })
 	for _, p := range pkgs {
 		if strings.HasSuffix(p.PkgPath, "/internal/gontainer") {
@@ -226,6 +227,9 @@ func (w *World) addSpecFile(sf *spec.File) {
 	w.Axioms = append(w.Axioms, sf.Axioms...)
 	w.Lemmas = append(w.Lemmas, sf.Lemmas...)
 	w.SortDs = append(w.SortDs, sf.Sorts...)
+	for _, g := range sf.Ghosts {
+		w.Ghosts[g.Name] = g
+	}
 	for _, g := range sf.Globals {
 		w.Globals[g.Pkg] = append(w.Globals[g.Pkg], g)
 	}
